@@ -335,6 +335,8 @@ func runC11(w *World, r *Report) {
 	if n == 0 {
 		r.Anchor("R-C11-2", "result lists built in bytecode.CallDirect")
 	}
+
+	c11IntegerOrder(w, r)
 }
 
 var c11OK = map[string]string{}
